@@ -293,7 +293,14 @@ func (f *btcsel) Exec(r *hx.Run, op []string) string {
 		amount, _ := strconv.ParseInt(op[1], 10, 64)
 		outs := parseOuts(op[2])
 		beforeU, beforeS := f.records()
-		res, sum, fee, err := btc.VerifChooseUtxos(f.svc, btcChainID, amount, outs, f.rk, f.m, f.n)
+		var res []*btc.Utxo
+		var sum, fee int64
+		var err error
+		cls := f.panicClass()
+		if pm := safely(func() { res, sum, fee, err = btc.VerifChooseUtxos(f.svc, btcChainID, amount, outs, f.rk, f.m, f.n) }); pm != "" {
+			r.Viol("C26:choose-panics:"+cls, fmt.Sprintf("chooseUtxos(amount %d) panics (%s); unspent record %v: the selected outputs neither leave the unspent record nor is the withdrawal refused", amount, pm, beforeU))
+			return "panic"
+		}
 		if err != nil {
 			r.Hist("choose.err")
 			return "err"
@@ -343,7 +350,13 @@ func (f *btcsel) Exec(r *hx.Run, op []string) string {
 		}
 		nBefore := len(f.svc.GetNotify())
 		beforeU, _ := f.records()
-		err = btc.VerifMakeBtcTx(f.svc, btcChainID, map[string]int64{to.EncodeAddress(): amount}, make([]byte, 32), 2, f.redeem, f.rk)
+		cls := f.panicClass()
+		if pm := safely(func() {
+			err = btc.VerifMakeBtcTx(f.svc, btcChainID, map[string]int64{to.EncodeAddress(): amount}, make([]byte, 32), 2, f.redeem, f.rk)
+		}); pm != "" {
+			r.Viol("C26:choose-panics:"+cls, fmt.Sprintf("makeBtcTx(amount %d) panics (%s); unspent record %v", amount, pm, beforeU))
+			return "panic"
+		}
 		if err != nil {
 			r.Hist("maketx.err")
 			if strings.Contains(err.Error(), "current utxo is not enough") {
@@ -414,6 +427,33 @@ func (f *btcsel) Exec(r *hx.Run, op []string) string {
 		return fmt.Sprintf("utxos=%s stxos=%s", joinInts(u), joinInts(s))
 	}
 	return "bad-op"
+}
+
+// panicClass describes the unspent record for the key of a panic report.
+func (f *btcsel) panicClass() string {
+	us, err := btc.VerifGetUtxos(f.svc, btcChainID, hex.EncodeToString(f.rk))
+	if err != nil {
+		return "unreadable-record"
+	}
+	seen := map[string]bool{}
+	for _, u := range us.Utxos {
+		k := fmt.Sprintf("%d:%x", u.Value, u.Op.Hash)
+		if seen[k] {
+			return "two-outputs-of-one-tx-with-equal-value"
+		}
+		seen[k] = true
+	}
+	return "distinct-value-hash-keys"
+}
+
+func safely(fn func()) (msg string) {
+	defer func() {
+		if e := recover(); e != nil {
+			msg = fmt.Sprint(e)
+		}
+	}()
+	fn()
+	return ""
 }
 
 func (f *btcsel) minChange() uint64 {
@@ -614,7 +654,7 @@ func genTarget(r *hx.Run, vals []uint64) uint64 {
 func (f *btcsel) genSel(r *hx.Run, id int) {
 	maxL := r.Pick(14, 22)
 	L := 1 + r.Rng.Intn(maxL)
-	if r.Rng.Chance(1, 12) {
+	if r.Rng.Chance(1, r.Pick(12, 30)) {
 		L = 1 + r.Rng.Intn(r.Pick(40, 120))
 	}
 	if r.Rng.Chance(1, 60) {
@@ -674,7 +714,7 @@ func (f *btcsel) genSel(r *hx.Run, id int) {
 		c.tries = int64([]int{0, 1, 2, 5, 17, 100, 1000}[r.Rng.Intn(7)])
 	}
 	if L > 16 && c.tries > 30000 { // keep the exhaustive branch-and-bound affordable on long lists
-		c.tries = int64(r.Pick(3000, 30000))
+		c.tries = int64(r.Pick(3000, 6000))
 	}
 	for i := 0; i < r.Rng.Intn(4); i++ {
 		c.outs = append(c.outs, []int{22, 23, 25, 34, 0, 252, 253, 300}[r.Rng.Intn(8)])
@@ -726,6 +766,13 @@ func (f *btcsel) genHistory(r *hx.Run, id int) {
 	kindStyle := r.Rng.Intn(3)
 	valStyle := r.Rng.Intn(3)
 	var live []uint64
+	type twin struct {
+		h   []byte
+		v   uint64
+		idx int
+	}
+	var twins []twin
+	used := map[string]bool{}
 	add := func() {
 		var v uint64
 		switch valStyle {
@@ -741,7 +788,17 @@ func (f *btcsel) genHistory(r *hx.Run, id int) {
 			kind = "s"
 		}
 		h := r.Rng.Bytes(32)
-		r.Do(fmt.Sprintf("add %d %d %s %s %d", next, v, kind, hx.Hex(h), r.Rng.Intn(3)))
+		idx := r.Rng.Intn(3)
+		if len(twins) > 0 && r.Rng.Chance(1, 8) { // a second output of an earlier transaction with the same value
+			t := twins[r.Rng.Intn(len(twins))]
+			h, v, idx = t.h, t.v, t.idx+1+r.Rng.Intn(2)
+			for used[fmt.Sprintf("%x:%d", h, idx)] { // outpoints stay pairwise different
+				idx++
+			}
+		}
+		used[fmt.Sprintf("%x:%d", h, idx)] = true
+		twins = append(twins, twin{h, v, idx})
+		r.Do(fmt.Sprintf("add %d %d %s %s %d", next, v, kind, hx.Hex(h), idx))
 		next++
 		live = append(live, v)
 	}
@@ -822,7 +879,7 @@ func (f *btcsel) Gen(r *hx.Run) {
 		r.Do("sel select 11 15 3 0 4251 2 3 4 1 1000000 252,0 3000:s,3000:w,3000:s,3000:s,2000:w,1000:w,1000:w,1000:w")
 		r.Do("sel sorted 3 5 3 58 6702 1 1 4 1 1000000 - 1000:o,1001:o,1002:s,1003:o,1004:w,1005:w,1006:w,1007:o")
 	}
-	nSel := r.Pick(6000, 200000)
+	nSel := r.Pick(6000, 120000)
 	if os.Getenv("HBTC_NOSEL") != "" {
 		nSel = 0
 	}
